@@ -428,6 +428,12 @@ class GoGen:
             s.n += 1
             fty = Agg(s.GT.key, s.GT.vindex('TFunc'), [PyVec([s.T()]), mkbox(s.T())])
             return s.E('Call', func=mkbox(s.E('Var', name=mkstr('f%d' % s.n), ty=fty)), args=PyVec([s.atom(declared)]), ty=s.T())
+        if k == 'builtin':
+            # what the backend emits for vec_push / vec_len: Go builtins and conversions, calls in the Go AST but not allowed in statement position
+            bk = s.ex.choose([(True, 'append'), (True, 'int32-len')])
+            fty = Agg(s.GT.key, s.GT.vindex('TFunc'), [PyVec([s.T()]), mkbox(s.T())])
+            if bk == 'append': return s.E('Call', func=mkbox(s.E('Var', name=mkstr('append'), ty=fty)), args=PyVec([s.var('p'), s.atom(declared)]), ty=s.T())
+            return s.E('Call', func=mkbox(s.E('Var', name=mkstr('int32'), ty=fty)), args=PyVec([s.E('Call', func=mkbox(s.E('Var', name=mkstr('len'), ty=fty)), args=PyVec([s.var('p')]), ty=s.T())]), ty=s.T())
         op = 'Add' if k == 'add' else 'Div'
         return s.E('BinaryOp', op=Agg(s.GB.key, s.GB.vindex(op), []), lhs=mkbox(s.atom(declared)), rhs=mkbox(s.atom(declared)), ty=s.T())
     def stmt(s, declared, depth):
@@ -567,6 +573,7 @@ def ob_block_dce(r, tier, seed, nstmts, depth, forms=('atom', 'call', 'add', 'di
         t_out = []
         try: ev.block(outb, {'p': ('param', 'p')}, t_out)
         except UseBeforeDecl as e: return inp, describe_block(g, outb), t_in, 'USE-BEFORE-DECL: %s' % e
+        ex.notes['illegal'] = illegal_expr_stmts(g, outb)
         return inp, describe_block(g, outb), t_in, t_out
     res = e2.explore(r, W, entry, [])
     found = {}
@@ -575,6 +582,8 @@ def ob_block_dce(r, tier, seed, nstmts, depth, forms=('atom', 'call', 'add', 'di
         if p.kind != 'ok': found.setdefault('panic', ('dce_block_with_live panics: %s' % p.value, None)); continue
         inp, outp, t_in, t_out = p.value
         r.nontrivial += 1
+        ill = (p.notes or {}).get('illegal')
+        if ill: found.setdefault('illegal-expression-statement', ('DCE output has the expression statement `%s`, which Go rejects (only function and method calls may stand as statements; append / len / cap and conversions are `not used`): input `%s` output `%s`' % (ill[0], inp, outp), (inp, outp)))
         if isinstance(t_out, str): found.setdefault('undeclared-variable', ('DCE output uses a variable it no longer declares (%s): input `%s` output `%s`' % (t_out, inp, outp), (inp, outp)))
         elif t_in != t_out:
             calls = lambda t: [e for e in t if e[0] == 'call']
@@ -583,6 +592,27 @@ def ob_block_dce(r, tier, seed, nstmts, depth, forms=('atom', 'call', 'add', 'di
         elif len(r.samples) < 3 and inp != outp: r.samples.append({'input': inp, 'output': outp})
     for key, (what, w) in found.items():
         r.findings.append(Finding(key, what[:900], {'blocks': w}, True, 'output block produced by the real dce_block_with_live MIR on the printed input block'))
+
+GO_NON_STMT_CALLEES = ('append', 'len', 'cap', 'int8', 'int16', 'int32', 'int64', 'uint8', 'uint16', 'uint32', 'uint64', 'float32', 'float64', 'string', 'bool')
+def illegal_expr_stmts(g, b):
+    """expression statements of a Go block (recursively) that the Go spec does not allow: anything but a call, and calls of append / len / cap / conversions"""
+    GS, GE = g.GS, g.GE; out = []
+    for st in b.fields[0].items:
+        n = GS.variants[st.idx].name; f = dict(zip([x[0] if x[0] is not None else str(i) for i, x in enumerate(GS.variants[st.idx].fields)], st.fields))
+        if n == 'Expr':
+            e = st.fields[0]; en = GE.variants[e.idx].name
+            if en == 'Block': continue
+            if en != 'Call': out.append(en); continue
+            fn = unbox(dict(zip([x[0] for x in GE.variants[e.idx].fields], e.fields))['func'])
+            if GE.variants[fn.idx].name == 'Var' and ms.pystr(fn.fields[0]) in GO_NON_STMT_CALLEES: out.append(ms.pystr(fn.fields[0]) + '(..)')
+        elif n == 'If':
+            out += illegal_expr_stmts(g, f['then'])
+            if f['else_'].idx == 1: out += illegal_expr_stmts(g, f['else_'].fields[0])
+        elif n == 'SwitchExpr':
+            for cb in f['cases'].items: out += illegal_expr_stmts(g, cb.fields[1])
+            if f['default'].idx == 1: out += illegal_expr_stmts(g, f['default'].fields[0])
+        elif n == 'Loop': out += illegal_expr_stmts(g, f['body'])
+    return out
 
 def flat_events(t):
     out = []
